@@ -13,7 +13,8 @@ rows=[]
 for sd in sorted((V/'seeded').iterdir()):
     m=json.loads((sd/'meta.json').read_text())
     summ=(m.get('summary') or '').replace('\n',' ').replace('|','/')
-    rows.append(f"| {sd.name} | {m['property']} | {summ[:170]} | `./check {m['property']} quick` |")
+    caught = m.get('caught_by') or f"./check {m['property']} quick"
+    rows.append(f"| {sd.name} | {m['property']} | {summ[:170]} | `{caught}` |")
 sec=f'''## 10. As built (construction phase) — what differs from the plan above, and the record the brief asks for
 
 ### 10.1 Repairs committed to `/repo` (one `fix:` commit per defect; the unedited 70-test suite passes after each)
@@ -215,7 +216,7 @@ evaluating context). The model is a model of the repaired tree.
 
 ### 10.5 Seeded changes (`seeded/<id>/`: patch.diff, demo.py, meta.json) and the checks that catch them
 
-Round 1 (`-a`, `-b`), round 2 (`-c`, `-d`), round 3 (`-e`, `-f`), round 4 (`-g`, `-h`), round 5 (`-i`, `-j`), round 6 (`-k`, `-l`), round 7 (`-m`, `-n`), round 8 (`-o`, `-p`), round 9 (`-q`, `-r`), round 10 (`-s`, `-t`) and round 11 (`-u`, `-v`); (round 4: the sub-agents were told how the harness
+Round 1 (`-a`, `-b`), round 2 (`-c`, `-d`), round 3 (`-e`, `-f`), round 4 (`-g`, `-h`), round 5 (`-i`, `-j`), round 6 (`-k`, `-l`), round 7 (`-m`, `-n`), round 8 (`-o`, `-p`), round 9 (`-q`, `-r`), round 10 (`-s`, `-t`), round 11 (`-u`, `-v`) and round 12 (`-w`, `-x`); (round 4: the sub-agents were told how the harness
 works — reference interpreter, formal model, tens of thousands of generated programs — and asked for the corner it does not look
 into). Round 3: the sub-agents were asked for changes in shared
 infrastructure that break the property indirectly and only for particular values, orders, nesting shapes, option combinations,
@@ -378,6 +379,24 @@ file* — counters and body-locals gone after the loop, in the file and in the i
 made `props/C19.py` unimportable for a few commits (caught by running every generator in both tiers; `selftest.py` now imports every
 property module and runs its generator), and the thorough-tier C04 generator raised on loop cases whose later passes leave the
 exact-arithmetic domain.
+
+Round 12 (`-w`, `-x`, the ten properties of rounds 8 and 10; the sub-agents were asked for violations that depend on HOW the compiler is
+entered or configured — the input form, where the options come from, the order of API calls on one object, the command-line functions)
+was first MISSED in twelve of twenty cases: the generators had varied programs far more than entry forms. Built in: (1) *line ends in
+string input* — CR LF, mixed LF / CR LF, lists of CR-terminated lines — for chains (C05-x: `ELSE\r` no longer recognised) and for flat
+scripts of argument-stripping commands (C01-w: a splitter that takes the separator from the first line break); (2) *entry files opened
+through a symbolic link* — the project (its `config.yaml`, its folder for imports, the file prints are located in) is the one the file
+was OPENED in (C14-w, C18-x: `Path.resolve()` on the entry path); (3) *the nested-list form with empty blocks* at any depth, and *the
+same unknown line reached along different call paths and depths* (C09-w, C09-x: an IndexError in the renumbering, a `zip(strict=True)`
+in the warning de-duplication); (4) *names followed by a line break* in list input (C20-w: a regular expression whose `$` matches before
+a trailing line feed); (5) *the same Compiler object given other options*, then string / file / list input (C15-x: the text-input
+project environment built once in the constructor); (6) *programs that reach the interpreter's integer-digit limit* in histories, with
+the limit itself in the process-state description (C17-x: `sys.set_int_max_str_digits(0)` and never restored); (7) *the same source
+compiled again to the same output path with other options* through the command line (C01-x: an "already up to date" shortcut that
+compares time stamps only — caught by C19, whose statement it breaks; C01 does not drive the command line). C17-w (a partial project
+file overlaid key by key and re-dumped with the caller's options) changes what is ON DISK between two compilations, which C15 and C19
+catch (C15-w, C19-w are the same change); C17 compares each step with the same step on the same files in a fresh process and is
+blind to it by construction — recorded as caught by C15 / C19.
 
 | id | property | change | caught by |
 |---|---|---|---|
